@@ -190,14 +190,22 @@ Definition astep (c : config) (a : astate) (o : op) (cls aflag : Z) : list astat
               if ok then
                 let a1 := set_par a (Conn i) [Peer q; if still then ASystem else System] in
                 [mkAstate (holders a1) (nset (aconns a1) i (mkAconn (ac_ep ac) still (Some q) (ac_open ac) (ac_adm ac))) (astreams a1)]
-              else if ac_allow ac && negb still then
-                (* refused while being moved from the allow-listed to the standard
-                   scopes: still where it was, fully moved, or released from the
-                   allow-listed pair and refused by system/transient *)
+              else
                 let moved p := let a1 := set_par a (Conn i) p in
                                mkAstate (holders a1) (nset (aconns a1) i (mkAconn (ac_ep ac) false None (ac_open ac) (ac_adm ac))) (astreams a1) in
-                [a; moved [System; Transient]; moved []]
-              else [a]
+                if ac_allow ac && negb still then
+                  (* refused while being moved from the allow-listed to the standard
+                     scopes: still where it was, fully moved, or released from the
+                     allow-listed pair and refused by system/transient *)
+                  [a; moved [System; Transient]; moved []]
+                else
+                  (* a connection that an earlier refused transfer left charged to no
+                     scope is charged to system + transient again before the peer
+                     scope is asked (fix e9a9a54): refused by them, or by the peer *)
+                  match a_par a (Conn i) with
+                  | [] => [a; moved [System; Transient]]
+                  | _ => [a]
+                  end
           end
       end
   | OOpenStream j q inb =>
